@@ -1,18 +1,21 @@
 #!/usr/bin/env python3
 """
 Source translator: the TEXT of /repo's cvss/cvss2.py, cvss3.py, cvss4.py  ->  Lean definitions
-lean/Cvss/Gen/Code2.lean, Code3.lean, Code4.lean (shallow embedding into `Option`, semantics of the
-Python fragments in lean/Cvss/Py.lean).
+lean/Cvss/Gen/Code2.lean, Code3.lean, Code4.lean (shallow embedding into `Py.M = Except Py.Exc`, semantics of
+the Python fragments in lean/Cvss/Py.lean).
 
-Where gen_tables.py ties the DATA of the model to the code, this ties part of the LOGIC: the scoring
-methods are re-translated from the current source on every run and `Cvss/Props/CodeTie*.lean` proves
-the hand-written model equal to the translation, so a changed constant, operator, rounding mode,
-branch or look-up in those methods breaks a kernel-checked equality instead of having to be hit by a
-sampled input.
+Where gen_tables.py ties the DATA of the model to the code, this ties the LOGIC: the three classes' constructors
+(`__init__`, `parse_vector`, `check_mandatory`, ..., every scoring method incl. CVSS4.compute_base_score) and
+accessors (`clean_vector`, `severities`, `scores`, sub-vectors, `as_json`, `rh_vector`, `from_rh_vector`, `__eq__`,
+`__hash__`) are re-translated from the current source on every run and `Cvss/Props/CodeTie*.lean` proves the
+hand-written model equal to the translation, so a changed constant, operator, rounding mode, branch, look-up or
+exception class breaks a kernel-checked equality instead of having to be hit by a sampled input.  The compiled
+`codedriver` executes the translation and tools/vh/codetie.py compares it with CPython on every run.
 
-The translator accepts a small, explicitly listed subset of Python.  A method outside the subset is
-reported as `untranslated` (the tie for that class is then not in force and the check says so); it is
-never translated approximately.
+The translator accepts a small, explicitly listed subset of Python (DESIGN.md section 16).  A method outside the
+subset is reported as `untranslated` (the tie for that class is then not in force and the check says so); it is
+never translated approximately.  Two call-site rules are shape-checked: `get_eq_maxes` / `extract_value_metric`
+of CVSS4 are abstracted to the (metric, value) lists gen_tables.py extracts with the library's own function.
 
 usage: gen_code.py [--repo /repo] [--out lean/Cvss/Gen]
 """
